@@ -3,6 +3,7 @@ from __future__ import absolute_import, division, print_function
 from operator import getitem
 
 from tornado import gen
+from tornado.concurrent import Future
 
 from dask.utils import apply
 from distributed.client import default_client
@@ -133,13 +134,25 @@ class gather(core.Stream):
     buffer
     scatter
     """
+    _previous = None
+
     @gen.coroutine
     def update(self, x, who=None, metadata=None):
         client = default_client()
 
         self._retain_refs(metadata)
-        result = yield client.gather(x, asynchronous=True)
-        result2 = yield self._emit(result, metadata=metadata)
+        # several updates can be in flight at once (e.g. two branches of one
+        # element re-joined by union); hand results on in arrival order, not
+        # in the order in which the cluster happens to finish them
+        previous, done = self._previous, Future()
+        self._previous = done
+        try:
+            result = yield client.gather(x, asynchronous=True)
+            if previous is not None:
+                yield previous
+            result2 = yield self._emit(result, metadata=metadata)
+        finally:
+            done.set_result(None)
         self._release_refs(metadata)
 
         raise gen.Return(result2)
